@@ -411,12 +411,6 @@ Proof.
   rewrite !nth_overflow; auto; rewrite ?apply_from_length; unfold zlen in H; lia.
 Qed.
 
-Definition dframe_drawn (cols rows row : Z) (evs : list dev) : Prop :=
-  evs = [] \/ exists c s, 0 <= c /\ c + zlen s <= cols /\
-    forall m, matrix_wf cols rows m ->
-      get_row row (apply_devs evs m) = frame cols c s /\ zlen (frame cols c s) = cols /\
-      forall r', 0 <= r' -> r' <> row -> get_row r' (apply_devs evs m) = get_row r' m.
-
 Lemma frame_shape_drawn cols rows row evs : 1 <= cols -> 0 <= row < rows ->
   frame_shape cols row evs -> dframe_drawn cols rows row evs.
 Proof.
@@ -834,3 +828,625 @@ Qed.
 
 Lemma loop_ticks_all_vars setup : loop_ticks setup [] = all_vars setup [].
 Proof. unfold loop_ticks, all_vars. rewrite !app_nil_r. reflexivity. Qed.
+
+(* ------------------------------------------------------------------------------------------ *)
+(* host: rows and LCD.line                                                                    *)
+(* ------------------------------------------------------------------------------------------ *)
+
+Ltac hsimp :=
+  cbn [h_style h_row h_text h_speed h_loop h_last h_offset h_active h_dir h_visible h_show h_cycles
+       hset_last hset_offset hset_active hset_dir hset_visible hset_show hset_cycles fst snd] in *.
+
+Lemma zlen_put col cols content line : zlen (put col cols content line) = zlen line.
+Proof.
+  revert col line; induction content as [|ch rest IH]; intros col line; cbn [put]; [reflexivity|].
+  rewrite IH. destruct (_ && _); [apply zlen_set_nth|reflexivity].
+Qed.
+
+Lemma zlen_bput pos cols text line : zlen (bput pos cols text line) = zlen line.
+Proof.
+  revert pos line; induction text as [|ch rest IH]; intros pos line; cbn [bput]; [reflexivity|].
+  destruct (pos >=? cols); [reflexivity|]. rewrite IH. apply zlen_set_nth.
+Qed.
+
+Lemma zlen_set_row r s buf : zlen (set_row r s buf) = zlen buf.
+Proof. apply zlen_set_nth. Qed.
+
+Lemma buf_wf_set_row cols rows r s buf : buf_wf cols rows buf -> zlen s = cols -> buf_wf cols rows (set_row r s buf).
+Proof.
+  intros [Hl Hw] Hs. split; [rewrite zlen_set_row; exact Hl|].
+  intros row Hin. apply In_set_nth in Hin as [->|Hin]; auto.
+Qed.
+
+Lemma get_set_row r s buf : 0 <= r < zlen buf -> get_row r (set_row r s buf) = s.
+Proof. intro H. unfold get_row, set_row. apply nth_set_nth_same. unfold zlen in H. lia. Qed.
+
+Lemma set_nth_twice {A} n (x y : A) l : set_nth n y (set_nth n x l) = set_nth n y l.
+Proof. revert n; induction l as [|h t IH]; intros [|n]; cbn; auto. rewrite IH. reflexivity. Qed.
+
+Lemma get_set_row_other r r' s buf : 0 <= r -> 0 <= r' -> r <> r' -> get_row r' (set_row r s buf) = get_row r' buf.
+Proof. intros. unfold get_row, set_row. apply nth_set_nth_other. lia. Qed.
+
+Lemma validate_row_true rows row : validate_row rows row = true <-> 0 <= row < rows.
+Proof. unfold validate_row. rewrite andb_true_iff, Z.leb_le, Z.ltb_lt. tauto. Qed.
+
+(* the row LCD.line leaves behind *)
+Definition hplaced (cols : Z) (text : list Z) : list Z :=
+  let content := if zlen text >? cols then slice text 0 cols else text in
+  put (Z.max 0 (Z.min (cols - zlen content) 0)) cols content (spaces cols).
+
+Lemma zlen_hplaced cols text : 0 <= cols -> zlen (hplaced cols text) = cols.
+Proof. intro H. unfold hplaced. rewrite zlen_put, zlen_spaces. lia. Qed.
+
+Lemma hline_eq cols rows buf row text : 1 <= cols -> zlen buf = rows -> 0 <= row < rows ->
+  hline cols rows buf row text =
+  Some (set_row row (hplaced cols text) buf, [HRow row (spaces cols); HRow row (hplaced cols text)]).
+Proof.
+  intros Hc Hl Hr. unfold hline. replace (validate_row rows row) with true by (symmetry; apply validate_row_true; exact Hr).
+  replace (Z.max 0 (cols - Z.max 0 0)) with cols by lia.
+  replace (cols <=? 0) with false by (symmetry; apply Z.leb_gt; lia).
+  rewrite get_set_row by lia. unfold set_row. rewrite set_nth_twice. reflexivity.
+Qed.
+
+Lemma hline_none cols rows buf row text : ~ (0 <= row < rows) -> hline cols rows buf row text = None.
+Proof.
+  intro H. unfold hline. destruct (validate_row rows row) eqn:E; [|reflexivity].
+  apply validate_row_true in E. contradiction.
+Qed.
+
+(* ------------------------------------------------------------------------------------------ *)
+(* host: the state part of a step, independent of the buffer                                  *)
+(* ------------------------------------------------------------------------------------------ *)
+
+Definition hnext (cols : Z) (st : hstate) : hstate :=
+  match h_style st with
+  | Scroll =>
+      let padded := h_text st ++ spaces cols in
+      match padded with
+      | [] => st
+      | _ =>
+        let st := hset_offset st (h_offset st + 1) in
+        if h_offset st >=? zlen padded then
+          (if h_loop st then hset_offset st 0 else hset_active st false)
+        else st
+      end
+  | Blink =>
+      let st := hset_show st (negb (h_show st)) in
+      if h_show st then st
+      else
+        let st := hset_cycles st (h_cycles st + 1) in
+        if negb (h_loop st) then hset_active st false else st
+  | Typewriter =>
+      let length := zlen (h_text st) in
+      if length =? 0 then hset_active st (h_loop st)
+      else if h_visible st <? length then
+        let st := hset_visible st (h_visible st + 1) in
+        if (h_visible st >=? length) && negb (h_loop st) then hset_active st false else st
+      else if h_loop st then hset_visible st 0
+      else hset_active st false
+  | Bounce =>
+      let text := h_text st in
+      match text with
+      | [] => hset_active st (h_loop st)
+      | _ =>
+        if zlen text >=? cols then hset_active st (h_loop st)
+        else
+          let max_offset := Z.max 0 (cols - zlen text) in
+          if max_offset =? 0 then hset_active st (h_loop st) else
+          let st := hset_offset st (h_offset st + h_dir st) in
+          if h_offset st >=? max_offset then hset_show (hset_dir (hset_offset st max_offset) (-1)) true
+          else if h_offset st <=? 0 then
+            let st := hset_dir (hset_offset st 0) 1 in
+            if h_show st then
+              let st := hset_show (hset_cycles st (h_cycles st + 1)) false in
+              if negb (h_loop st) && (h_cycles st >=? 1) then hset_active st false else st
+            else st
+          else st
+      end
+  end.
+
+Ltac break_match_hyp :=
+  match goal with
+  | H : context [match ?x with _ => _ end] |- _ =>
+      lazymatch x with
+      | context [match _ with _ => _ end] => fail
+      | _ => destruct x eqn:?
+      end
+  end.
+
+Lemma hbody_next cols rows st buf st' buf' ev :
+  hbody cols rows st buf = Some (st', buf', ev) -> st' = hnext cols st.
+Proof.
+  unfold hbody, hnext. destruct st as [sty row text speed lp last off act dir vis show cyc]. hsimp.
+  destruct sty; intro H.
+  - destruct (text ++ spaces cols) eqn:Ep; [inversion H; reflexivity|].
+    destruct (hline cols rows buf row _) as [[b e]|]; [|discriminate].
+    repeat break_match_hyp; inversion H; reflexivity.
+  - repeat break_match_hyp; try discriminate; inversion H; reflexivity.
+  - repeat break_match_hyp; try discriminate; inversion H; reflexivity.
+  - destruct text as [|t0 text'] eqn:Et.
+    + repeat break_match_hyp; try discriminate; inversion H; reflexivity.
+    + rewrite <- Et in *. clear Et.
+      repeat break_match_hyp; try discriminate; inversion H; reflexivity.
+Qed.
+
+Definition hres_ok (cols rows row : Z) (buf buf' : buffer) (ev : list hev) : Prop :=
+  buf_wf cols rows buf' /\ hin_row cols row ev /\ hno_delay ev /\ hframe_drawn cols row buf ev buf'.
+
+Lemma hres_nothing cols rows row buf : buf_wf cols rows buf -> hres_ok cols rows row buf buf [].
+Proof.
+  intro H. split; [exact H|]. split; [intros r s []|]. split; [intros ms []|].
+  left. split; reflexivity.
+Qed.
+
+Lemma hres_line cols rows row buf text : 1 <= cols -> buf_wf cols rows buf ->
+  hres_ok cols rows row buf (set_row row (hplaced cols text) buf)
+          [HRow row (spaces cols); HRow row (hplaced cols text)].
+Proof.
+  intros Hc Hw. pose proof (zlen_hplaced cols text ltac:(lia)) as Hp.
+  split; [apply buf_wf_set_row; assumption|]. split; [|split].
+  - intros r s [H|[H|[]]]; inversion H; subst; split; auto. apply zlen_spaces_pos; lia.
+  - intros ms [H|[H|[]]]; discriminate.
+  - right. exists (hplaced cols text), [HRow row (spaces cols)]. repeat split; auto.
+Qed.
+
+Lemma hres_assign cols rows row buf fr : buf_wf cols rows buf -> zlen fr = cols ->
+  hres_ok cols rows row buf (set_row row fr buf) [HRow row fr].
+Proof.
+  intros Hw Hf. split; [apply buf_wf_set_row; assumption|]. split; [|split].
+  - intros r s [H|[]]; inversion H; subst; auto.
+  - intros ms [H|[]]; discriminate.
+  - right. exists fr, []. repeat split; auto.
+Qed.
+
+Lemma hbody_ok cols rows st buf : 1 <= cols -> buf_wf cols rows buf -> 0 <= h_row st < rows ->
+  exists buf' ev, hbody cols rows st buf = Some (hnext cols st, buf', ev) /\
+                  hres_ok cols rows (h_row st) buf buf' ev.
+Proof.
+  intros Hc Hw Hr.
+  assert (G : exists st' buf' ev, hbody cols rows st buf = Some (st', buf', ev) /\
+                                  hres_ok cols rows (h_row st) buf buf' ev).
+  { pose proof (hres_nothing cols rows (h_row st) buf Hw) as N.
+    pose proof (fun text => hres_line cols rows (h_row st) buf text Hc Hw) as Ln.
+    destruct Hw as [Hl Hw0].
+    unfold hbody. destruct st as [sty row text speed lp last off act dir vis show cyc]. hsimp.
+    destruct sty.
+    - destruct (text ++ spaces cols) eqn:Ep; [do 3 eexists; split; [reflexivity|exact N]|].
+      rewrite hline_eq by assumption. hsimp.
+      repeat break_if; do 3 eexists; (split; [reflexivity|apply Ln]).
+    - repeat break_if; rewrite hline_eq by assumption; hsimp;
+        repeat break_if; do 3 eexists; (split; [reflexivity|apply Ln]).
+    - repeat (break_if; hsimp); rewrite ?hline_eq by assumption; hsimp;
+        repeat (break_if; hsimp); do 3 eexists; (split; [reflexivity|try apply Ln; try exact N]).
+    - destruct text as [|t0 text'] eqn:Et.
+      + rewrite hline_eq by assumption. do 3 eexists; (split; [reflexivity|apply Ln]).
+      + rewrite <- Et in *. clear Et.
+        assert (V : validate_row rows row = true) by (apply validate_row_true; exact Hr).
+        assert (B : forall o, hres_ok cols rows row buf
+                      (set_row row (bput o cols text (spaces cols)) buf)
+                      [HRow row (bput o cols text (spaces cols))]).
+        { intro o. apply hres_assign; [split; assumption|]. rewrite zlen_bput. apply zlen_spaces_pos. lia. }
+        repeat (break_if; hsimp); rewrite ?hline_eq by assumption; hsimp; try (exfalso; congruence);
+          do 3 eexists; (split; [reflexivity|try apply Ln; try exact N; try apply B]). }
+  destruct G as (st' & buf' & ev & E & R). exists buf', ev. split; [|exact R].
+  rewrite E. f_equal. f_equal. f_equal. eapply hbody_next. exact E.
+Qed.
+
+(* ------------------------------------------------------------------------------------------ *)
+(* host: one tick of one animation                                                            *)
+(* ------------------------------------------------------------------------------------------ *)
+
+Definition hstep (cols now : Z) (st : hstate) : hstate :=
+  if hgate st now then hnext cols (hset_last st now) else st.
+
+Lemma htick1_state cols rows now st buf st' buf' ev :
+  htick1 cols rows now st buf = Some (st', buf', ev) -> st' = hstep cols now st.
+Proof.
+  unfold htick1, hstep. destruct (hgate st now); intro H.
+  - eapply hbody_next; exact H.
+  - inversion H; reflexivity.
+Qed.
+
+Lemma htick1_ok cols rows now st buf : 1 <= cols -> buf_wf cols rows buf -> 0 <= h_row st < rows ->
+  exists buf' ev, htick1 cols rows now st buf = Some (hstep cols now st, buf', ev) /\
+                  hres_ok cols rows (h_row st) buf buf' ev /\
+                  (hgate st now = false -> ev = [] /\ buf' = buf).
+Proof.
+  intros Hc Hw Hr. unfold htick1, hstep. destruct (hgate st now).
+  - destruct (hbody_ok cols rows (hset_last st now) buf Hc Hw) as (b & e & E & R).
+    { destruct st; exact Hr. }
+    exists b, e. split; [exact E|]. split; [destruct st; exact R|discriminate].
+  - exists buf, []. split; [reflexivity|]. split; [apply hres_nothing; exact Hw|auto].
+Qed.
+
+Lemma hnext_keeps cols st :
+  h_style (hnext cols st) = h_style st /\ h_row (hnext cols st) = h_row st /\
+  h_text (hnext cols st) = h_text st /\ h_speed (hnext cols st) = h_speed st /\
+  h_loop (hnext cols st) = h_loop st /\ h_last (hnext cols st) = h_last st.
+Proof.
+  unfold hnext. destruct st as [sty row text speed lp last off act dir vis show cyc]. hsimp.
+  destruct sty.
+  - destruct (text ++ spaces cols); hsimp; repeat (break_if; hsimp); repeat split; reflexivity.
+  - repeat (break_if; hsimp); repeat split; reflexivity.
+  - repeat (break_if; hsimp); repeat split; reflexivity.
+  - destruct text; hsimp; repeat (break_if; hsimp); repeat split; reflexivity.
+Qed.
+
+Lemma hstep_keeps cols now st :
+  h_style (hstep cols now st) = h_style st /\ h_row (hstep cols now st) = h_row st /\
+  h_text (hstep cols now st) = h_text st /\ h_speed (hstep cols now st) = h_speed st /\
+  h_loop (hstep cols now st) = h_loop st.
+Proof.
+  unfold hstep. destruct (hgate st now); [|repeat split; reflexivity].
+  destruct (hnext_keeps cols (hset_last st now)) as (A & B & C & D & E & _).
+  rewrite A, B, C, D, E. destruct st; repeat split; reflexivity.
+Qed.
+
+Lemma hstep_last cols now st : h_last (hstep cols now st) = if hgate st now then now else h_last st.
+Proof.
+  unfold hstep. destruct (hgate st now); [|reflexivity].
+  destruct (hnext_keeps cols (hset_last st now)) as (_ & _ & _ & _ & _ & E). rewrite E. destruct st; reflexivity.
+Qed.
+
+Lemma hgate_active st now : hgate st now = true -> h_active st = true.
+Proof. unfold hgate. intro H. apply andb_true_iff in H. tauto. Qed.
+
+(* ---- termination: variant and invariant *)
+Definition hvar (cols : Z) (st : hstate) : Z :=
+  if h_active st then
+    let n := zlen (h_text st) in
+    match h_style st with
+    | Scroll => n + cols - h_offset st
+    | Blink => 1
+    | Typewriter => if n <=? 1 then 1 else n - h_visible st
+    | Bounce => if (n <=? 0) || (n >=? cols) then 1
+                else if h_show st then h_offset st else 2 * (cols - n) - h_offset st
+    end
+  else 0.
+
+Definition hinv (cols : Z) (st : hstate) : Prop :=
+  h_loop st = false /\
+  (h_active st = true ->
+   let n := zlen (h_text st) in
+   match h_style st with
+   | Scroll => 0 <= h_offset st < n + cols
+   | Blink => h_show st = true
+   | Typewriter => 1 <= n -> 1 <= h_visible st /\ (2 <= n -> h_visible st < n)
+   | Bounce => 0 <= h_cycles st /\
+               (0 < n < cols ->
+                (h_show st = false /\ h_dir st = 1 /\ 0 <= h_offset st < cols - n) \/
+                (h_show st = true /\ h_dir st = -1 /\ 0 < h_offset st <= cols - n))
+   end).
+
+Lemma hvar_nonneg cols st : hinv cols st -> 1 <= cols ->
+  0 <= hvar cols st /\ (h_active st = true <-> 1 <= hvar cols st).
+Proof.
+  intros [Hl Hi] Hc. unfold hvar. destruct (h_active st) eqn:Ea; [|split; [lia|split; [discriminate|lia]]].
+  specialize (Hi eq_refl). cbv zeta in Hi. pose proof (zlen_nonneg (h_text st)) as Hn.
+  assert (G : forall v, 1 <= v -> 0 <= v /\ (true = true <-> 1 <= v)) by (intros; split; [lia|tauto]).
+  apply G. destruct (h_style st).
+  - lia.
+  - lia.
+  - destruct (zlen (h_text st) <=? 1) eqn:E; zb; lia.
+  - destruct ((zlen (h_text st) <=? 0) || (zlen (h_text st) >=? cols)) eqn:E; [lia|].
+    zb. destruct Hi as [_ Hi].
+    destruct (Hi ltac:(lia)) as [(A & B & D)|(A & B & D)]; rewrite A; lia.
+Qed.
+
+Ltac hfin :=
+  hsimp; split;
+  [ split; [reflexivity | try discriminate; intros; repeat split; intros; lia]
+  | repeat break_if; zb; lia ].
+
+Lemma hstep_var cols now st : 1 <= cols -> hinv cols st -> hgate st now = true ->
+  hinv cols (hstep cols now st) /\ hvar cols (hstep cols now st) = hvar cols st - 1.
+Proof.
+  intros Hc [Hl Hi] Hg. pose proof (hgate_active _ _ Hg) as Ha. specialize (Hi Ha).
+  unfold hstep. rewrite Hg. unfold hinv, hvar. rewrite Ha.
+  destruct st as [sty row text speed lp last off act dir vis show cyc]. hsimp. subst lp act. clear Hg.
+  pose proof (zlen_nonneg text) as Hn. unfold hnext. hsimp.
+  destruct sty.
+  - (* scroll *)
+    destruct (text ++ spaces cols) eqn:Ep.
+    { apply (f_equal zlen) in Ep. rewrite zlen_app, zlen_spaces in Ep. change (zlen (@nil Z)) with 0 in Ep. lia. }
+    rewrite <- Ep. rewrite zlen_app, zlen_spaces. replace (Z.max 0 cols) with cols by lia. hsimp.
+    destruct (off + 1 >=? zlen text + cols) eqn:E; zb; hfin.
+  - (* blink *)
+    subst show. cbn [negb]. hsimp. cbn [negb]. hfin.
+  - (* typewriter *)
+    destruct (zlen text =? 0) eqn:E0; zb; [hfin|].
+    specialize (Hi ltac:(lia)).
+    destruct (vis <? zlen text) eqn:E1; hsimp; zb.
+    + cbn [negb andb]. destruct (vis + 1 >=? zlen text) eqn:E3; cbn [andb]; zb; hfin.
+    + hfin.
+  - (* bounce *)
+    destruct Hi as [Hcy Hi]. destruct text as [|t0 text'] eqn:Et.
+    { change (zlen (@nil Z)) with 0. hfin. }
+    rewrite <- Et in *.
+    assert (0 < zlen text) by (rewrite Et, zlen_cons; pose proof (zlen_nonneg text'); lia).
+    clear Et.
+    destruct (zlen text >=? cols) eqn:E1; zb; [hfin|].
+    replace (Z.max 0 (cols - zlen text)) with (cols - zlen text) by lia.
+    destruct (cols - zlen text =? 0) eqn:E2; zb; [lia|].
+    destruct (Hi ltac:(lia)) as [(A & B & D)|(A & B & D)]; subst show dir; hsimp;
+      repeat (break_if; cbn [negb andb] in *; hsimp); zb; hfin.
+Qed.
+
+(* the state LCD.animate registers *)
+Definition hstart (sty : style) (row : Z) (text : list Z) (speed : Z) (lp : bool) : hstate :=
+  match sty with
+  | Scroll | Blink => mkH sty row text (Z.max 0 speed) lp 0 0 true 1 0 true 0
+  | Typewriter => mkH sty row text (Z.max 0 speed) lp 0 0 true 1 (Z.min (zlen text) 1) true 0
+  | Bounce => mkH sty row text (Z.max 0 speed) lp 0 0 true 1 0 false 0
+  end.
+
+Lemma hinv_start cols sty row text speed : 1 <= cols ->
+  hinv cols (hstart sty row text speed false) /\
+  hvar cols (hstart sty row text speed false) = hsteps_total sty cols text.
+Proof.
+  intro Hc. pose proof (zlen_nonneg text) as Hn. unfold hinv, hvar, hsteps_total.
+  destruct sty; cbn [hstart]; hsimp.
+  - split; [split; [reflexivity|intros _; lia]|lia].
+  - split; [split; [reflexivity|reflexivity]|reflexivity].
+  - split; [split; [reflexivity|]|].
+    + intros _ H1. lia.
+    + destruct (zlen text <=? 1) eqn:E; [reflexivity|]. zb. lia.
+  - split; [split; [reflexivity|]|].
+    + intros _. split; [lia|]. intros H. left. repeat split; lia.
+    + destruct ((zlen text <=? 0) || (zlen text >=? cols)); lia.
+Qed.
+
+Lemma hstart_fields sty row text speed lp :
+  let st := hstart sty row text speed lp in
+  h_style st = sty /\ h_row st = row /\ h_text st = text /\ h_speed st = Z.max 0 speed /\ h_loop st = lp /\
+  h_last st = 0 /\ h_active st = true.
+Proof. destruct sty; cbn; repeat split; reflexivity. Qed.
+
+(* ------------------------------------------------------------------------------------------ *)
+(* host: runs of one animation                                                                *)
+(* ------------------------------------------------------------------------------------------ *)
+
+Lemma hsteps_var cols rows st nows stn tr : 1 <= cols -> hinv cols st ->
+  hsteps cols rows st nows stn tr ->
+  hinv cols stn /\ step_count tr + hvar cols stn = hvar cols st.
+Proof.
+  intros Hc Hi H. induction H as [st|st now buf st' buf' ev rest stn tr Hw Ht Hs IH].
+  - split; [assumption|]. unfold step_count, step_times. cbn. lia.
+  - apply htick1_state in Ht. subst st'. rewrite step_count_cons.
+    destruct (hgate st now) eqn:Hg.
+    + destruct (hstep_var cols now st Hc Hi Hg) as [Hi' Hv].
+      destruct (IH Hi') as [A B]. split; [assumption|]. lia.
+    + unfold hstep in *. rewrite Hg in *. destruct (IH Hi) as [A B]. split; [assumption|]. lia.
+Qed.
+
+(* C18_terminates, host *)
+Lemma terminates_host cols rows sty row text speed nows stn tr : 1 <= cols ->
+  hsteps cols rows (hstart sty row text speed false) nows stn tr ->
+  step_count tr <= hsteps_total sty cols text /\
+  (h_active stn = true <-> step_count tr < hsteps_total sty cols text) /\
+  hsteps_total sty cols text <= zlen text + 2 * cols + 2.
+Proof.
+  intros Hc H. destruct (hinv_start cols sty row text speed Hc) as [Hi Hv].
+  destruct (hsteps_var _ _ _ _ _ _ Hc Hi H) as [Hi' Hs]. rewrite Hv in Hs.
+  destruct (hvar_nonneg cols stn Hi' Hc) as [H0 H1].
+  split; [lia|]. split; [rewrite H1; lia|].
+  pose proof (zlen_nonneg text). unfold hsteps_total. destruct sty; repeat break_if; zb; lia.
+Qed.
+
+(* C18_loops_forever, host *)
+Lemma hnext_loop_active cols st : h_loop st = true -> h_active st = true -> h_active (hnext cols st) = true.
+Proof.
+  unfold hnext. destruct st as [sty row text speed lp last off act dir vis show cyc]. hsimp. intros -> ->.
+  destruct sty.
+  - destruct (text ++ spaces cols); hsimp; repeat (break_if; hsimp); reflexivity.
+  - repeat (break_if; cbn [negb andb] in *; hsimp); try reflexivity; discriminate.
+  - repeat (break_if; cbn [negb andb] in *; hsimp); try reflexivity; try discriminate;
+      rewrite andb_false_r in *; discriminate.
+  - destruct text; hsimp; repeat (break_if; cbn [negb andb] in *; hsimp); try reflexivity; discriminate.
+Qed.
+
+Lemma hstep_loop_active cols now st : h_loop st = true -> h_active st = true ->
+  h_active (hstep cols now st) = true.
+Proof.
+  intros Hl Ha. unfold hstep. destruct (hgate st now); [|exact Ha].
+  apply hnext_loop_active; destruct st; assumption.
+Qed.
+
+Lemma hsteps_loop_active cols rows st nows stn tr : h_loop st = true -> h_active st = true ->
+  hsteps cols rows st nows stn tr -> h_active stn = true.
+Proof.
+  intros Hl Ha H. induction H as [st|st now buf st' buf' ev rest stn tr Hw Ht Hs IH]; [exact Ha|].
+  apply htick1_state in Ht. subst st'. apply IH.
+  - destruct (hstep_keeps cols now st) as (_ & _ & _ & _ & L). rewrite L. exact Hl.
+  - apply hstep_loop_active; assumption.
+Qed.
+
+Lemma loops_forever_host cols rows sty row text speed nows stn tr :
+  hsteps cols rows (hstart sty row text speed true) nows stn tr -> h_active stn = true.
+Proof.
+  destruct (hstart_fields sty row text speed true) as (_ & _ & _ & _ & L & _ & A).
+  apply hsteps_loop_active; assumption.
+Qed.
+
+(* C18_rate_limit, host *)
+Lemma hgate_spacing st now : hgate st now = true -> h_last st <= now ->
+  0 < h_last st -> h_speed st <= now - h_last st.
+Proof.
+  unfold hgate. intros H Hle Hp. apply andb_true_iff in H as [_ H].
+  destruct (h_speed st <=? 0) eqn:E1; zb; [lia|].
+  apply negb_true_iff in H.
+  replace (h_last st =? 0) with false in H by (symmetry; apply Z.eqb_neq; lia).
+  cbn [negb andb] in H. zb. lia.
+Qed.
+
+Lemma hsteps_spaced cols rows st nows stn tr : hsteps cols rows st nows stn tr ->
+  nondecr (h_last st) nows -> spaced (h_speed st) (h_last st) (step_times tr).
+Proof.
+  intro H. induction H as [st|st now buf st' buf' ev rest stn tr Hw Ht Hs IH]; intro Hn; [exact I|].
+  apply htick1_state in Ht. subst st'. cbn [nondecr] in Hn. destruct Hn as [Hle Hr].
+  rewrite step_times_cons.
+  destruct (hstep_keeps cols now st) as (_ & _ & _ & S & _).
+  pose proof (hstep_last cols now st) as L. rewrite S, L in IH.
+  destruct (hgate st now) eqn:Hg.
+  - cbn [spaced]. split; [intro; apply hgate_spacing; assumption|]. split; [assumption|].
+    apply IH. exact Hr.
+  - apply IH. eapply nondecr_weaken; eassumption.
+Qed.
+
+Lemma rate_limit_host cols rows sty row text speed lp nows stn tr : tick_times_ok nows ->
+  hsteps cols rows (hstart sty row text speed lp) nows stn tr ->
+  rate_limited (Z.max 0 speed) (step_times tr).
+Proof.
+  intros Ht H. destruct (hstart_fields sty row text speed lp) as (_ & _ & _ & S & _ & L & _).
+  apply (spaced_rate_limited (Z.max 0 speed) 0); [lia|].
+  pose proof (hsteps_spaced _ _ _ _ _ _ H) as G. rewrite S, L in G. apply G.
+  eapply nondecr_weaken; [|exact Ht]. lia.
+Qed.
+
+(* C18_start_nonblocking / C18_frame_geometry, host: every tick of a run *)
+Lemma hsteps_events cols rows st nows stn tr : 1 <= cols -> 0 <= h_row st < rows ->
+  hsteps cols rows st nows stn tr ->
+  Forall (fun x => hno_delay (snd x) /\ hin_row cols (h_row st) (snd x)) tr.
+Proof.
+  intros Hc Hr H. induction H as [st|st now buf st' buf' ev rest stn tr Hw Ht Hs IH]; [constructor|].
+  destruct (htick1_ok cols rows now st buf Hc Hw Hr) as (b & e & E & (_ & R & D & _) & _).
+  rewrite E in Ht. inversion Ht; subst. constructor; [cbn [snd]; split; assumption|].
+  destruct (hstep_keeps cols now st) as (_ & Rw & _). rewrite <- Rw. apply IH. rewrite Rw. exact Hr.
+Qed.
+
+(* ------------------------------------------------------------------------------------------ *)
+(* host: the whole object                                                                     *)
+(* ------------------------------------------------------------------------------------------ *)
+
+Lemma hnew_wf cols rows l : hnew cols rows = Some l -> hwf l /\ l_anims l = [].
+Proof.
+  unfold hnew. destruct ((cols <=? 0) || (rows <=? 0)) eqn:E; [discriminate|]. zb.
+  intro Hnew. inversion Hnew; subst. split; [|reflexivity]. unfold hwf; cbn. split; [lia|]. split.
+  - split.
+    + unfold zlen. rewrite repeat_length. lia.
+    + intros row Hin. apply repeat_spec in Hin. subst. apply zlen_spaces_pos. lia.
+  - intros st [].
+Qed.
+
+Lemma hanimate_fin l row st b e : hwf l -> 0 <= row < l_rows l -> h_row st = row ->
+  hres_ok (l_cols l) (l_rows l) row (l_buf l) b e ->
+  hwf (mkL (l_cols l) (l_rows l) b (l_anims l ++ [st])) /\
+  l_cols l = l_cols l /\ l_rows l = l_rows l /\ 0 <= row < l_rows l /\
+  l_anims l ++ [st] = l_anims l ++ [st] /\
+  hno_delay e /\ hin_row (l_cols l) row e /\ hframe_drawn (l_cols l) row (l_buf l) e b.
+Proof.
+  intros (Hc & Hw & Hr) V Hst (W & R & D & F).
+  split; [|repeat split; try assumption; try apply V; try (eapply R; eassumption)].
+  unfold hwf; cbn [l_cols l_rows l_buf l_anims]. split; [exact Hc|]. split; [exact W|].
+  intros s Hin. apply in_app_or in Hin as [Hin|[<-|[]]]; [apply Hr; exact Hin|rewrite Hst; exact V].
+Qed.
+
+Lemma hanimate_ok l sty row text speed lp l' ev : hwf l ->
+  hanimate l sty row text speed lp = Some (l', ev) ->
+  hwf l' /\ l_cols l' = l_cols l /\ l_rows l' = l_rows l /\ 0 <= row < l_rows l /\
+  l_anims l' = l_anims l ++ [hstart sty row text speed lp] /\
+  hno_delay ev /\ hin_row (l_cols l) row ev /\ hframe_drawn (l_cols l) row (l_buf l) ev (l_buf l').
+Proof.
+  intros Hwf H. pose proof Hwf as (Hc & Hw & Hr). unfold hanimate in H.
+  destruct (validate_row (l_rows l) row) eqn:V; [|discriminate]. apply validate_row_true in V.
+  pose proof Hw as [Hl Hw0].
+  destruct sty; cbn [hstart]; hsimp.
+  - rewrite hline_eq in H by assumption. inversion H; subst; clear H. cbn [l_cols l_rows l_anims l_buf].
+    apply hanimate_fin; [assumption|assumption|reflexivity|apply hres_line; assumption].
+  - rewrite hline_eq in H by assumption. inversion H; subst; clear H. cbn [l_cols l_rows l_anims l_buf].
+    apply hanimate_fin; [assumption|assumption|reflexivity|apply hres_line; assumption].
+  - rewrite hline_eq in H by assumption. inversion H; subst; clear H. cbn [l_cols l_rows l_anims l_buf].
+    apply hanimate_fin; [assumption|assumption|reflexivity|apply hres_line; assumption].
+  - inversion H; subst; clear H. cbn [l_cols l_rows l_anims l_buf].
+    apply hanimate_fin; [assumption|assumption|reflexivity|].
+    apply hres_assign; [assumption|rewrite zlen_bput; apply zlen_spaces_pos; lia].
+Qed.
+
+Lemma htick_list_ok cols rows now sts buf : 1 <= cols -> buf_wf cols rows buf ->
+  (forall st, In st sts -> 0 <= h_row st < rows) ->
+  exists b ev, htick_list cols rows now sts buf = Some (map (hstep cols now) sts, b, ev) /\
+    buf_wf cols rows b /\ hno_delay ev /\
+    (forall r s, In (HRow r s) ev -> zlen s = cols /\ exists st, In st sts /\ h_row st = r /\ hgate st now = true) /\
+    (forall i st, nth_error sts i = Some st ->
+       exists b0 b1 e, buf_wf cols rows b0 /\ htick1 cols rows now st b0 = Some (hstep cols now st, b1, e)).
+Proof.
+  intros Hc. revert buf; induction sts as [|st rest IH]; intros buf Hw Hr.
+  - exists buf, []. cbn. split; [reflexivity|]. split; [exact Hw|]. split; [intros ? []|]. split; [intros ? ? []|].
+    intros [|i] st H; discriminate.
+  - destruct (htick1_ok cols rows now st buf Hc Hw (Hr st (or_introl eq_refl))) as (b1 & e1 & E1 & (W1 & R1 & D1 & _) & Sk).
+    destruct (IH b1 W1 (fun s Hs => Hr s (or_intror Hs))) as (b2 & e2 & E2 & W2 & D2 & R2 & N2).
+    exists b2, (e1 ++ e2). cbn [htick_list map]. rewrite E1, E2. split; [reflexivity|]. split; [exact W2|]. split; [|split].
+    + intros ms Hin. apply in_app_or in Hin as [Hin|Hin]; [eapply D1|eapply D2]; exact Hin.
+    + intros r s Hin. apply in_app_or in Hin as [Hin|Hin].
+      * destruct (R1 _ _ Hin) as [-> Hs]. split; [exact Hs|]. exists st. split; [left; reflexivity|]. split; [reflexivity|].
+        destruct (hgate st now) eqn:Hg; [reflexivity|]. destruct (Sk eq_refl) as [-> _]. destruct Hin.
+      * destruct (R2 _ _ Hin) as [Hs (s' & Hi & Hrw & Hg)]. split; [exact Hs|]. exists s'. split; [right; exact Hi|tauto].
+    + intros [|i] s H; cbn [nth_error] in H.
+      * inversion H; subst. exists buf, b1, e1. split; assumption.
+      * apply (N2 i s H).
+Qed.
+
+Lemma htick_ok l now : hwf l ->
+  exists l' ev, htick l now = Some (l', ev) /\ hwf l' /\
+    l_cols l' = l_cols l /\ l_rows l' = l_rows l /\ l_anims l' = map (hstep (l_cols l) now) (l_anims l) /\
+    hno_delay ev /\
+    (forall r s, In (HRow r s) ev -> zlen s = l_cols l /\
+        exists st, In st (l_anims l) /\ h_row st = r /\ hgate st now = true).
+Proof.
+  intros (Hc & Hw & Hr).
+  destruct (htick_list_ok (l_cols l) (l_rows l) now (l_anims l) (l_buf l) Hc Hw Hr) as (b & ev & E & W & D & R & _).
+  unfold htick. rewrite E. do 2 eexists. split; [reflexivity|]. cbn [l_cols l_rows l_anims l_buf].
+  split; [|split; [reflexivity|split; [reflexivity|split; [reflexivity|split; [exact D|exact R]]]]].
+  unfold hwf; cbn. split; [exact Hc|]. split; [exact W|].
+  intros st Hin. apply in_map_iff in Hin as (s0 & <- & Hin).
+  destruct (hstep_keeps (l_cols l) now s0) as (_ & Rw & _). rewrite Rw. auto.
+Qed.
+
+Lemma hreach_wf l : hreach l -> hwf l.
+Proof.
+  induction 1 as [cols rows l H|l sty row text speed lp l' ev _ IH H|l now l' ev _ IH H].
+  - apply hnew_wf in H. tauto.
+  - eapply hanimate_ok in H; [tauto|exact IH].
+  - destruct (htick_ok l now IH) as (l2 & ev2 & E & W & _). rewrite E in H. inversion H; subst. exact W.
+Qed.
+
+(* C18_host_tick_total *)
+Lemma host_tick_total l : hreach l -> forall nows, hticks l nows <> None.
+Proof.
+  intros Hr nows. apply hreach_wf in Hr. revert l Hr; induction nows as [|now rest IH]; intros l Hw; cbn [hticks].
+  - discriminate.
+  - destruct (htick_ok l now Hw) as (l' & ev & E & W & _). rewrite E.
+    specialize (IH l' W). destruct (hticks l' rest) as [[l'' evs]|]; [discriminate|contradiction].
+Qed.
+
+(* every animation of a display, ticked through the display's history, is a run of [hsteps] *)
+Lemma hticks_animation l nows l' evs : hwf l -> hticks l nows = Some (l', evs) ->
+  forall i st, nth_error (l_anims l) i = Some st ->
+  exists stn tr, hsteps (l_cols l) (l_rows l) st nows stn tr /\ nth_error (l_anims l') i = Some stn.
+Proof.
+  revert l l' evs; induction nows as [|now rest IH]; intros l l' evs Hw H i st Hi; cbn [hticks] in H.
+  - inversion H; subst. exists st, []. split; [constructor|exact Hi].
+  - destruct (htick_ok l now Hw) as (l1 & ev & E & W & C1 & R1 & A1 & _). rewrite E in H.
+    destruct (hticks l1 rest) as [[l2 evs2]|] eqn:E2; [|discriminate]. inversion H; subst.
+    destruct Hw as (Hc & Hb & Hrows).
+    destruct (htick_list_ok (l_cols l) (l_rows l) now (l_anims l) (l_buf l) Hc Hb Hrows) as (_ & _ & _ & _ & _ & _ & N).
+    destruct (N i st Hi) as (b0 & b1 & e & Wb & T).
+    assert (Hi1 : nth_error (l_anims l1) i = Some (hstep (l_cols l) now st)).
+    { rewrite A1. rewrite nth_error_map, Hi. reflexivity. }
+    destruct (IH l1 l' evs2 W E2 i _ Hi1) as (stn & tr & S & F). rewrite C1, R1 in S.
+    exists stn, ((now, hgate st now, e) :: tr). split; [|exact F].
+    econstructor; eassumption.
+Qed.
+
+(* C18_frame_geometry, host: one tick of one animation on any well-formed buffer *)
+Lemma frame_geometry_host_tick cols rows now st buf st' buf' ev :
+  1 <= cols -> buf_wf cols rows buf -> 0 <= h_row st < rows ->
+  htick1 cols rows now st buf = Some (st', buf', ev) ->
+  hin_row cols (h_row st) ev /\ hframe_drawn cols (h_row st) buf ev buf' /\ buf_wf cols rows buf' /\
+  h_row st' = h_row st.
+Proof.
+  intros Hc Hw Hr H. destruct (htick1_ok cols rows now st buf Hc Hw Hr) as (b & e & E & (W & R & D & F) & _).
+  rewrite E in H. inversion H; subst.
+  split; [exact R|]. split; [exact F|]. split; [exact W|].
+  destruct (hstep_keeps cols now st) as (_ & Rw & _). exact Rw.
+Qed.
